@@ -25,10 +25,12 @@ func PathOf(s string, frombit int32, height int32) uint64 {
 func PathsOf(keys []string, frombit int32, height int32, dedup bool) []uint64 {
 	l := len(keys)
 	rst := make([]uint64, 0, l)
-	prev := ^uint64(0)
-	for _, s := range keys {
+	var prev uint64
+	for i, s := range keys {
 		p := PathOf(s, frombit, height)
-		if !dedup || p != prev {
+		// the first path has no predecessor: no path word can serve as a "none" value,
+		// every uint64 up to all ones (32 one-bits at height 32) is a valid path
+		if !dedup || i == 0 || p != prev {
 			rst = append(rst, p)
 		}
 		prev = p
